@@ -435,11 +435,21 @@ class MayRaise:
         if atom[0] == "pure" and atom[1] == "callable" and pol:
             facts[atom[2][0]] = frozenset({C})
             return
+        def is_len(x: Any) -> Any:
+            return x[2][0] if isinstance(x, tuple) and x and x[0] == "pure" and x[1] == "len" and len(x[2]) == 1 else None
+
         if atom[0] == "cmp" and atom[1] == "<":
             pos.append((atom, pol))
+            # `len(xs) > 0` / `not len(xs) < 1`: the container is not empty
+            if pol and atom[2] == ("const", 0) and is_len(atom[3]) is not None:
+                pos.append((("nonempty", is_len(atom[3])), True))
+            if not pol and atom[3] == ("const", 1) and is_len(atom[2]) is not None:
+                pos.append((("nonempty", is_len(atom[2])), True))
             return
         if atom[0] == "cmp" and atom[1] == "==" and atom[3][0] == "const" and not pol:
             pos.append((atom, pol))
+            if atom[3] == ("const", 0) and is_len(atom[2]) is not None:
+                pos.append((("nonempty", is_len(atom[2])), True))  # `len(xs) != 0`
             return
         if atom[0] in ("param", "attr", "call", "pure", "bool", "free", "fresh", "sub") or atom[0] == "cmp":
             if pol and atom[0] != "cmp":
@@ -474,6 +484,8 @@ class MayRaise:
         for atom, pol in pos:
             if atom[0] == "cmp" and atom[1] == "==" and atom[2] == term and atom[3] == ("const", 0) and not pol:
                 return True
+        if term[0] == "pure" and term[1] == "len" and len(term[2]) == 1 and any(a == ("nonempty", term[2][0]) and pol for a, pol in pos):
+            return True  # `if not xs: return ...` dominates: len(xs) != 0
         return False
 
     def check_term(self, t: Any, node: Any, facts: dict, events: dict, pos: list, out: list, seen: set) -> None:
